@@ -26,13 +26,15 @@ def optUnit (s : String) : Option (Option U) :=
   if s = "-" then some none else (unitOf s).map some
 
 /-- history of one metric object: tokens `P k v…` (process_data with fresh native values), `C unit`
-(change_unit, exceptions ignored), `R` (get_result → `unit hex(label) piPow k v…`) -/
+(change_unit, exceptions ignored), `X` (a refused process_data), `R` (get_result → `unit hex(label) piPow k v…`) -/
 def runReuse (name : String) (native : U) : Nat → PE → List String → List String → Option (List String)
   | 0, _, _, acc => some acc.reverse
   | _, _, [], acc => some acc.reverse
   | fuel+1, pe, "P" :: rest, acc => do
       let (v, rest) ← readRatList rest
-      runReuse name native fuel (processData native pe v) rest acc
+      runReuse name native fuel (processBatch native pe (some v)) rest acc
+  | fuel+1, pe, "X" :: rest, acc =>
+      runReuse name native fuel (processBatch native pe none) rest acc
   | fuel+1, pe, "C" :: u :: rest, acc => do
       let u ← unitOf u
       runReuse name native fuel ((changeUnit pe u).getD pe) rest acc
